@@ -293,8 +293,17 @@ pub fn padded_with_path(k: usize, pad: usize, r: &mut Rng, root: bool, nseg: usi
         2 => Term::VarPackage(Box::new(Term::Str("s".repeat(pad)))),
         3 => {
             // 12-byte Memory32Fixed descriptors plus 8-byte IO descriptors to reach any size >= 0
+            // preceded by (pad mod 4) 9-byte extended-interrupt descriptors so that odd totals (e.g. the
+            // 253 descriptor bytes that make the BufferSize integer exactly 255) are reached as well
             let mut v = Vec::new();
             let mut left = pad;
+            let odd = left % 4;
+            if left >= 9 * odd {
+                for i in 0..odd {
+                    v.push(Res::Irq { consumer: true, edge: i % 2 == 0, low: false, shared: i == 2, num: left as u32 });
+                    left -= 9;
+                }
+            }
             while left >= 12 && left != 16 && left != 8 {
                 v.push(Res::Mem32 { rw: true, base: left as u32, len: 1 });
                 left -= 12;
